@@ -427,6 +427,10 @@ pub struct Eval<'a> {
     pub case_id: String,
     /// attribute every violation to this property instead (used by the C16 coherence probes)
     pub attribute_to: Option<&'static str>,
+    /// the configuration the caller believes the long lived matcher to have: like a real caller the monitor only
+    /// assigns `matcher.config` when it wants a different one, so state that a call leaves behind in the matcher
+    /// reaches the following cases (None: assign unconditionally)
+    pub believed: Option<&'a mut Option<RCfg>>,
 }
 
 fn viol(ev: &mut Eval, prop: &str, kind: &str, class: &str, entry: &str, case: &Case, extra: J) {
@@ -483,7 +487,14 @@ pub fn eval_case(ev: &mut Eval, rng: &mut Rng, case: &Case, hr_ascii: bool, nr_a
         "general"
     };
     ev.rep.count(&format!("arm.{arm}"));
-    ev.matcher.config = cfg.real();
+    match ev.believed.as_mut() {
+        Some(b) if **b == Some(cfg) => ev.rep.count("calls-under-a-configuration-set-earlier"),
+        Some(b) => {
+            ev.matcher.config = cfg.real();
+            **b = Some(cfg);
+        }
+        None => ev.matcher.config = cfg.real(),
+    }
     let brow = if cfg.prefer_prefix {
         None
     } else {
@@ -779,9 +790,11 @@ pub fn initial_matcher(seed: u64, shard: u64, epoch: u64) -> Matcher {
 pub fn run(opts: &MatchOpts, props: &Props, pools: &Pools, rep: &mut Report) {
     let mut matcher = initial_matcher(opts.seed, opts.shard, 0);
     let range: Box<dyn Iterator<Item = u64>> = match opts.replay {
-        Some(i) => Box::new(i..i + 1),
+        // the cases of a block share the matcher state: replay the block up to the case
+        Some(i) => Box::new(i - i % 16..i + 1),
         None => Box::new(0..opts.cases),
     };
+    let mut believed: Option<RCfg> = None;
     for idx in range {
         if idx % 128 == 0 && rep.elapsed() > opts.time_limit {
             rep.note(format!("time limit reached after {idx} cases"));
@@ -790,8 +803,20 @@ pub fn run(opts: &MatchOpts, props: &Props, pools: &Pools, rep: &mut Report) {
         let mut rng = Rng::new(mix(&[opts.seed, opts.shard, idx]));
         if idx % 4096 == 4095 {
             matcher = initial_matcher(opts.seed, opts.shard, idx / 4096 + 1);
+            believed = None;
         }
-        let case = gen_case_for(idx, &mut rng, pools, props, opts.long_only);
+        let mut case = gen_case_for(idx, &mut rng, pools, props, opts.long_only);
+        // every other block of 8 cases shares one configuration (a caller that configures its matcher once)
+        if (idx / 8) % 2 == 0 {
+            let mut block = RCfg::from_index((mix(&[opts.seed, opts.shard, idx / 8, 5]) % RCfg::COUNT as u64) as usize);
+            if case.profile == "anchored" {
+                block.prefer_prefix = false;
+            }
+            case.cfg = block;
+            let mut n = case.needle.chars.clone();
+            normalize_needle(&mut n, &block);
+            case.needle = Text::new(n);
+        }
         if case.needle.chars.iter().any(|&c| ref_norm(c, &case.cfg) != c) {
             // the composed projection is not idempotent for a few characters; such a needle is
             // not "already normalized" and outside the properties
@@ -817,6 +842,7 @@ pub fn run(opts: &MatchOpts, props: &Props, pools: &Pools, rep: &mut Report) {
             matcher: &mut matcher,
             case_id: format!("{}:{}:{}", opts.seed, opts.shard, idx),
             attribute_to: None,
+            believed: Some(&mut believed),
         };
         // representation combinations
         let h_reprs: &[bool] = if case.hay.ascii { &[true, false] } else { &[false] };
